@@ -239,3 +239,54 @@ Proof.
   split; [vm_compute; reflexivity|]. split; [vm_compute; reflexivity|].
   right. vm_compute. intros k w [H|[H|[]]]; injection H as <- _; vm_compute; lia.
 Qed.
+
+(* ---- the table-level LPM index (lpm_index.go: lpmEntry head/tail stored in the trie) -------------
+   The trie of lpm/trie.go stores, per prefix, an lpmEntry (objects sharing the prefix, by primary key).
+   Persistence of committed tries includes these entries: the tail slice is shared between the entry
+   values of successive tries, so upsert / delete must write only into fresh arrays.
+   (Base/Slice.v heap of Go backing arrays; Table/SliceProofs.v; Table/Model.v LPM index queries.) *)
+From SV Require Base.Slice Table.Model Table.InvDefs Table.SliceProofs Table.AgreeDefs Table.AgreeLpm Table.Queries.
+Module C13_TableLpm.
+Import SV.Base.Bytes SV.Base.Slice SV.Table.Model SV.Table.InvDefs SV.Table.SliceProofs SV.Table.AgreeDefs
+  SV.Table.AgreeLpm SV.Table.Queries.
+Local Open Scope nat_scope.
+
+(* what earlier tries hold (any well-formed entry value of the old heap) reads the same after a
+   later transaction's upsert or delete on an entry sharing its backing array *)
+Theorem C13_entry_upsert_persistent : forall (h : eheap) (e : mentry) (pk : bytes) (o : object) (e' : mentry),
+  me_wf h e' -> me_den (fst (upsert_new h e pk o)) e' = me_den h e'.
+Proof. exact upsert_new_frame. Qed.
+Print Assumptions C13_entry_upsert_persistent.
+
+Theorem C13_entry_delete_persistent : forall (h : eheap) (e : mentry) (pk : bytes) (e' : mentry),
+  me_wf h e' -> me_den (fst (delete_new h e pk)) e' = me_den h e'.
+Proof. exact delete_new_frame. Qed.
+Print Assumptions C13_entry_delete_persistent.
+
+(* the in-place variants change an earlier trie's entry: defect D1 (fixed by 9ab81d8), seeded S-C13-3 *)
+Theorem C13_entry_upsert_inplace_refuted :
+  exists (h : eheap) (e : mentry) (k : bytes) (o : object) (e_other : mentry),
+    me_wf h e /\ me_wf h e_other /\ esorted (me_den h e) /\
+    forall extra, me_den h e_other <> me_den (fst (upsert_old extra h e k o)) e_other.
+Proof. exact upsert_old_alias_refuted. Qed.
+Print Assumptions C13_entry_upsert_inplace_refuted.
+
+Theorem C13_entry_delete_inplace_refuted :
+  exists (h : eheap) (e : mentry) (k : bytes) (e_other : mentry),
+    me_wf h e /\ me_wf h e_other /\ esorted (me_den h e) /\
+    me_den h e_other <> me_den (fst (delete_inplace h e k)) e_other.
+Proof.
+  destruct delete_inplace_alias_refuted as (h & e & k & eo & H1 & H2 & H3 & H4 & _).
+  exists h, e, k, eo. auto.
+Qed.
+Print Assumptions C13_entry_delete_inplace_refuted.
+
+(* queries through a table's LPM index: the longest stored prefix covering the key; stored prefixes
+   covered by / not below the query, in (prefix bits, primary key) order *)
+Theorem C13_table_lpm_list : forall u q t, TInv t -> Agree t ->
+  (forall k, longest_cover u t q k -> ql_list u q t = filter (has_lkey u k) (vals (t_primary t))) /\
+  ((forall k, ~ covers u t q k) -> ql_list u q t = []) /\
+  ql_get u q t = hd_error (ql_list u q t).
+Proof. exact ql_list_exact. Qed.
+Print Assumptions C13_table_lpm_list.
+End C13_TableLpm.
